@@ -164,13 +164,18 @@ class AttributionScore(Contract):
     props = ('C09',)
 
     def configs(self):
-        return [dict(rank=4), dict(rank=5)]
+        return [dict(rank=4), dict(rank=5), dict(rank=4, target='slice')]
 
     def make_args(self, cfg, A):
         N, Ad, W, T = A.dim('N', 1), A.dim('A', 1), A.dim('W', 1), A.dim('T', 1)
         extra = [A.dim('U', 1)] if cfg['rank'] == 5 else []
         y0 = A.tensor('y0', 2 + len(extra), 'real', shape=[N, T] + extra)
         y_hat = A.tensor('y_hat', 4 + len(extra), 'real', shape=[N, Ad, W, T] + extra)
+        if cfg.get('target') == 'slice':
+            # a slice of outputs [lo, hi): the score is the mean over the selected outputs
+            lo, hi = A.int('lo'), A.int('hi')
+            A.assume(0 <= lo, lo < hi, hi <= T)
+            return [y0, y_hat, slice(lo, hi)], {}
         t = A.int('target')
         A.assume(t >= 0, t < T)
         return [y0, y_hat, t], {}
@@ -193,6 +198,13 @@ class AttributionScore(Contract):
         return spec_tensor(list(y_hat.shape[:3]), elem, 'real')
 
     def result(self, a, cfg):
+        if isinstance(a.target, slice):
+            y0, y_hat = a.y0, a.y_hat
+            lo, hi = a.target.start, a.target.stop
+            Ad = y_hat.shape[1]
+            d = lambda n, c, q, t: y_hat.elem(n, c, q, t) - y0.elem(n, t)
+            centred = lambda n, c, q, t: d(n, c, q, t) - O.truediv(Sum(0, Ad, lambda c2: d(n, c2, q, t), 'real'), Ad)
+            return spec_tensor(list(y_hat.shape[:3]), lambda n, c, q: O.truediv(Sum(0, hi - lo, lambda u: centred(n, c, q, lo + u), 'real'), hi - lo), 'real')
         return self.spec(a.y0, a.y_hat, a.target)
 
 
